@@ -7,7 +7,9 @@
 (* Emit prints what grammar.Parse / CreateEvaluator must return: accepted  *)
 (* with which syntax tree, rejected, tree-and-error, and the number of     *)
 (* parser steps.  In budget mode it also runs the engine under budgets     *)
-(* around that number (C11).                                               *)
+(* around that number (C11).  Prefabricated inputs may come with the tree  *)
+(* they were rendered from: rt says whether the specification reads the    *)
+(* rendering back as that tree (C16, print-then-parse round trip).         *)
 (***************************************************************************)
 EXTENDS Integers, Sequences, TLC, Json
 
@@ -51,7 +53,9 @@ Emit ==
          bud == IF W.budgets THEN [b \in Budgets(r.cnt) |-> Run(inp, b)] ELSE <<>>
      IN /\ Assert(ShapeOK(r), <<"result shape (C10)", inp>>)
         /\ W.budgets => \A b \in Budgets(r.cnt) : Assert(BudgetOK(r, b, bud[b]), <<"budget law (C11)", inp, b>>)
-        /\ PrintT("CASE " \o ToJson([inp |-> inp, obs |-> Observed(r), cnt |-> r.cnt, errs |-> r.errs,
+        /\ PrintT("CASE " \o ToJson([inp |-> inp, obs |-> Observed(r), cnt |-> r.cnt, errs |-> r.errs, seed |-> seed,
+                                     rt |-> IF seed > 0 /\ Len(W.expect) >= seed
+                                            THEN Observed(r).acc = "yes" /\ Observed(r).ast = W.expect[seed] ELSE TRUE,
                                      bud |-> IF W.budgets THEN [b \in Budgets(r.cnt) |-> Observed(bud[b])] ELSE <<>>]))
   /\ UNCHANGED vars
 
